@@ -4,8 +4,11 @@
 here=$(cd "$(dirname "$0")" && pwd); verif=$(cd "$here/../.." && pwd)
 scratch=${VERIF_SCRATCH:-/dev/shm}/swhverif-seeded-$$
 rc=0
+# VERIF_SHARD=i/n: only every n-th seeded change, starting with the i-th (several shards can run side by side)
+shard_i=${VERIF_SHARD%/*}; shard_n=${VERIF_SHARD#*/}; k=0
 for d in "$verif"/seeded/*/; do
   name=$(basename "$d")
+  k=$((k+1)); if [ -n "$VERIF_SHARD" ] && [ $((k % shard_n)) -ne $((shard_i % shard_n)) ]; then continue; fi
   prop=$(python3 -c "import json,sys; print(json.load(open(sys.argv[1]))['property'])" "$d/meta.json")
   if python3 -c "import json,sys; sys.exit(0 if json.load(open(sys.argv[1])).get('obsolete') else 1)" "$d/meta.json"; then echo "skip $name (obsolete: no longer breaks the property on the current tree)"; continue; fi
   rm -rf "$scratch"; mkdir -p "$scratch"; cp -r /repo "$scratch/repo"
@@ -16,5 +19,5 @@ for d in "$verif"/seeded/*/; do
   if [ $r -eq 1 ] && [ "$v" -gt 0 ]; then echo "caught $name by $prop (violations=$v, with concrete input=$nf)"; else echo "MISSED $name by $prop rc=$r"; rc=1; fi
 done
 rm -rf "$scratch"
-(cd "$verif" && git checkout -- evidence 2>/dev/null; rm -rf replays)
+[ -n "$VERIF_SHARD" ] || (cd "$verif" && git checkout -- evidence 2>/dev/null; rm -rf replays)
 exit $rc
